@@ -66,6 +66,22 @@ Theorem C30_fixed_body_truncation : forall enc_known kind_of cs e len p,
   exists r, read_body_all enc_known kind_of (mkR cs e) = Ok (BBody bt_fixed len p false r).
 Proof. exact body_fixed_truncated. Qed.
 
+(* Every strict prefix of a request head / response head is rejected, however chunked, however the stream ends
+   and whatever the encoder layer answers. *)
+Theorem C30_request_truncation : forall enc_known kind_of cs e prefix hint hdr w p s,
+  write_request_head prefix hint hdr = Some w -> lenN prefix = prefix_len ->
+  lenN hint <= max_lengthed -> lenN hdr <= max_lengthed ->
+  w = p ++ s -> s <> [] -> concat cs = p -> lenN w < two63 ->
+  read_request enc_known kind_of (mkR cs e) = Err.
+Proof. exact request_truncation. Qed.
+
+Theorem C30_response_truncation : forall enc_known kind_of cs e hint hdr p s,
+  lenN hint <= max_lengthed -> lenN hdr <= max_lengthed ->
+  write_response_head hint hdr = p ++ s -> s <> [] -> concat cs = p ->
+  lenN (write_response_head hint hdr) < two63 ->
+  read_response_head enc_known kind_of (mkR cs e) = Err /\ read_body_all enc_known kind_of (mkR cs e) = Err.
+Proof. exact response_truncation. Qed.
+
 (* Totality: EVERY byte stream, chunking, ending policy and encoder behaviour yields Ok or Err; the type
    assertions header.(RequestHeader) / header.(ResponseHeader) can never panic. *)
 Theorem C30_total : forall enc_known kind_of r,
